@@ -90,6 +90,10 @@ def run(ctx):
         "the body of a generated function is the same text in both modes (K-gen) and reads the environment only "
         "through the name `environment`",
         "import machinery, zipimport, marshal / .pyc handling are CPython's (level P)",
+        "every template of the set compiles (hypothesis; probed: a set with a broken template is rejected by "
+        "compile_templates(ignore_errors=False) and, with the default ignore_errors=True, the skipped template is reported "
+        "through log_function and is TemplateNotFound afterwards - so `include 'broken' ignore missing` renders nothing "
+        "where source loading raises TemplateSyntaxError)",
         "every ModuleLoader.load execs the module anew (own namespace per loaded Template): exercised by the two-environment histories, not proved",
     ]
     ctx.proof("C31")
@@ -175,6 +179,7 @@ def run(ctx):
         shutil.rmtree(scratch_root, ignore_errors=True)
     fs_stream(ctx, jinja2, ModuleLoader)
     multi_env_stream(ctx, jinja2, ModuleLoader)
+    broken_probe(ctx, jinja2, ModuleLoader)
 
 
 SPELLINGS = ["%s", "./%s", "/%s", ".//%s", "%s", "%s"]
@@ -235,6 +240,50 @@ def fs_stream(ctx, jinja2, ModuleLoader):
                            "C31:unnormalised-template-name" if respelled and "NotFound" in got else None)
             else:
                 ctx.validated()
+    finally:
+        shutil.rmtree(root, ignore_errors=True)
+
+
+def broken_probe(ctx, jinja2, ModuleLoader):
+    """hypothesis of C31: every template of the set compiles.  Probe: a set that violates it is not precompiled
+    silently — compile_templates(ignore_errors=False) raises TemplateSyntaxError, and with the default
+    ignore_errors=True the skipped template is reported through log_function and is TemplateNotFound afterwards"""
+    srcs = {"main": "<{% include 'broken' ignore missing %}>", "broken": "{% if %}", "ok": "fine"}
+    root = os.path.join(lib.BUILD, f"c31_broken_{os.getpid()}")
+    try:
+        for mode in (None, "stored", "deflated"):
+            env = jinja2.Environment(loader=jinja2.DictLoader(srcs))
+            target = os.path.join(root, f"strict_{mode or 'dir'}" + (".zip" if mode else ""))
+            os.makedirs(root, exist_ok=True)
+            ctx.case()
+            ctx.count("probe-broken-template")
+            try:
+                env.compile_templates(target, zip=mode, log_function=lambda x: None, ignore_errors=False)
+                ctx.reject({"sources": srcs, "zip": mode},
+                           "compile_templates(ignore_errors=False) accepted a set with a template that does not compile", None)
+            except jinja2.TemplateSyntaxError:
+                ctx.validated()
+            except Exception as e:  # noqa
+                ctx.reject({"sources": srcs, "zip": mode}, f"compile_templates raised {type(e).__name__} for a syntax error", None)
+            log = []
+            target = os.path.join(root, f"lenient_{mode or 'dir'}" + (".zip" if mode else ""))
+            ctx.case()
+            try:
+                env.compile_templates(target, zip=mode, log_function=log.append)
+                told = any("Could not compile" in m and "broken" in m for m in log)
+                e2 = jinja2.Environment(loader=ModuleLoader(target))
+                try:
+                    e2.get_template("broken")
+                    found = True
+                except jinja2.TemplateNotFound:
+                    found = False
+                if not told or found or e2.get_template("ok").render() != "fine":
+                    ctx.reject({"sources": srcs, "zip": mode, "log": log},
+                               "a template that does not compile was skipped without a log message, or is loadable", None)
+                else:
+                    ctx.validated()
+            except Exception as e:  # noqa
+                ctx.reject({"sources": srcs, "zip": mode}, f"lenient compile_templates raised {type(e).__name__}: {e}", None)
     finally:
         shutil.rmtree(root, ignore_errors=True)
 
